@@ -160,7 +160,7 @@ def run(ctx: Ctx) -> None:
             mc["intended 3 borrowers, 2 command keys"] = _c(3, 1, "{0,1}", 0, 0, '{"clean","nonlast"}', False, False, (False, False), nkeys=2)
         else:
             mc["intended 2 borrowers x 2 rounds, everything on"] = _c(2, 2, "{0,1,2}", 1, 1, ALLK, True, True, (False, False))
-            mc["intended 3 borrowers x 1 round, everything on"] = _c(3, 1, "{0,1,2}", 1, 1, ALLK, True, True, (False, False))
+            mc["intended 3 borrowers x 1 round, reaper, close(), death"] = _c(3, 1, "{0,1,2}", 0, 1, ALLK, True, True, (False, False))
             mc["intended 3 borrowers x 1 round, 2 command keys"] = _c(3, 1, "{0,1,2}", 1, 0, ALLK, True, True, (False, False), nkeys=2)
             mc["intended 2 borrowers x 2 rounds, clock 2, no death"] = _c(2, 2, "{0,1,2}", 2, 0, ALLK, True, True, (False, False))
         mc_jobs = {k: pool.submit(run_tlc, wd, "Pool", render_cfg(constants=c, invariants=SANITY + CLAUSES),
@@ -206,7 +206,7 @@ def run(ctx: Ctx) -> None:
             require_ok(gr, "Pool state graph")
             paths = g.edge_cover_paths(ctx.rng, key=_coarse if quick else _fine)
             if not quick:
-                paths = paths[:250] + g.random_paths(ctx.rng, 40, 60)
+                paths = paths[:150] + g.random_paths(ctx.rng, 30, 60)
             for nodes, labs in paths:
                 beh = g.path_to_behaviour(nodes, labs)
                 res = PW.run_path(beh, g.state(nodes[0]), nb, ctx.rng)
@@ -219,7 +219,7 @@ def run(ctx: Ctx) -> None:
                     ctx.drift.append({"spec": "Pool", "graph": name, **res["drift"]})
                 if res["errors"]:
                     ctx.drift.append({"spec": "Pool", "thread_errors": res["errors"]})
-        for i in range(100 if quick else 700):
+        for i in range(100 if quick else 500):
             r = ctx.rng
             res = PW.run_random(r, r.choice([2, 2, 3]), r.choice([1, 2]), r.choice([0, 1, 2]), r.random() < 0.7,
                                 r.random() < 0.5, nkeys=r.choice([1, 1, 2]))
